@@ -291,64 +291,183 @@ package pkg
 //@   nopanic
 //@   modifies alloc, fresh GruleJSON.*, $allocated
 //@ func ParseJSONRuleset(data) (rs, err)
-//@   serves C20
+//@   serves C18 C20
 //@   opt alloc=1
 //@   nopanic
 //@   modifies alloc, fresh GruleJSON.*, $allocated
 //@ func ParseJSONRule(data) (rs, err)
-//@   serves C20
+//@   serves C18 C20
 //@   opt alloc=1
 //@   nopanic
 //@   modifies alloc, fresh GruleJSON.*, $allocated
 //@ func ParseRule(rule) (r, err)
-//@   serves C20
+//@   serves C18 C20
 //@   requires rule != nil
 //@   nopanic
 //@   modifies $allocated
 //@ func parseRule(rule) (r, err)
-//@   serves C20
+//@   serves C18 C20
+//@   opt strite=1
+//@   opt axioms=od_thenlines0,od_thenlinesN
 //@   requires rule != nil
 //@   nopanic
 //@   modifies $allocated
-//@   ensures blank: len(rule.Name) == 0 || rule.When == nil ==> err != nil
-//@ func parseThen(ts) (r, err)
-//@   serves C20
-//@   nopanic
-//@   modifies $allocated
-//@ func parseWhen(w) (r, err)
-//@   serves C20
-//@   nopanic
-//@   modifies $allocated
-//@ func buildExpression(input, depth) (r, err)
-//@   serves C20
-//@   nopanic
-//@   modifies $allocated
-//@ func buildExpressionEx(input, depth) (r, nowrap, err)
-//@   serves C20
-//@   nopanic
-//@   modifies $allocated
-//@   ensures single: len(input) != 1 ==> err != nil
-//@ func buildCompoundOperator(o, depth, operator) (r, nowrap, err)
-//@   serves C20
-//@   nopanic
-//@   modifies $allocated
-//@ func joinCall(v) (r, err)
-//@   serves C20
-//@   nopanic
-//@   modifies $allocated
-//@ func parseCallOperand(o) (r, err)
-//@   serves C20
-//@   nopanic
-//@   modifies $allocated
-//@ func joinOperator(v, operator) (r, err)
-//@   serves C20
-//@   nopanic
-//@   modifies $allocated
-//@ func joinSet(v, operator) (r, err)
-//@   serves C20
-//@   nopanic
-//@   modifies $allocated
+//@   checks[C18] blank: len(rule.Name) == 0 || rule.When == nil || !ok_when(rule.When) || !ok_then(rule.Then) ==> err != nil
+//@   invariant@1[C18] acc: stringBuilder == "rule " + rule.Name + " " + fmt_q_GoStr(rule.Description) + " salience " + fmt_itoa(rule.Salience) + " {\n    when\n        " + tr_when(rule.When) + "\n    then\n" + thenLines(tr_then(rule.Then), i) && i <= len(thens) && thens == tr_then(rule.Then)
+//@   checks[C18] format: err == nil ==> r == "rule " + rule.Name + " " + fmt_q_GoStr(rule.Description) + " salience " + fmt_itoa(rule.Salience) + " {\n    when\n        " + tr_when(rule.When) + "\n    then\n" + thenLines(tr_then(rule.Then), len(tr_then(rule.Then))) + "}\n"
+// ---- C18: the translator's output is PINNED to the documented translation scheme (docs/en/GRL_JSON_en.md), function by
+// function: which operator spelling joins the operands, what is quoted, and above all where parentheses go - a nested operator
+// object is parenthesised unless it is obj/const/set/call or sits directly under `set`, so operands are grouped exactly as
+// they are nested. The translation of a sub-tree is named by uninterpreted functions of the JSON value (tr_*, ok_*): the
+// translator only reads the decoded tree (its frame is checked), so within one translation they are functions of the value.
+//@ extern pure func tr_operand(o Ref, noWrap bool, negation bool) string
+//@ extern pure func ok_operand(o Ref, noWrap bool, negation bool) bool
+//@ extern pure func tr_ex(m Ref, depth int) string
+//@ extern pure func nw_ex(m Ref, depth int) bool
+//@ extern pure func ok_ex(m Ref, depth int) bool
+//@ extern pure func tr_set(v Ref, operator string) string
+//@ extern pure func ok_set(v Ref, operator string) bool
+//@ extern pure func tr_call(v Ref) string
+//@ extern pure func ok_call(v Ref) bool
+//@ extern pure func tr_compound(o Ref, depth int, operator string) string
+//@ extern pure func ok_compound(o Ref, depth int, operator string) bool
+// the arguments of a call (elements 1..n-1 of the operand array), each translated by parseCallOperand
+//@ extern pure func argsOf(a []any) []string
+//@ axiom od_argsof_len: forall a []any {argsOf(a)} :: len(a) >= 1 ==> len(argsOf(a)) == len(a) - 1
+//@ axiom od_argsof_el: forall a []any, j int {argsOf(a)[j]} :: 0 <= j && j < len(a) - 1 ==> argsOf(a)[j] == tr_callop(a[j + 1])
+// the operands of and/or, each an operator object translated one level deeper
+//@ extern pure func subsOf(a []any, depth int) []string
+//@ axiom od_subsof_len: forall a []any, d int {subsOf(a, d)} :: len(subsOf(a, d)) == len(a)
+//@ axiom od_subsof_el: forall a []any, d int, j int {subsOf(a, d)[j]} :: 0 <= j && j < len(a) ==> subsOf(a, d)[j] == tr_ex(a[j], d + 1)
+// one action: a plain string gets a terminating ";" unless it has one; an operator object is translated and terminated
+//@ macro func thenItem(o Ref) string { return ite(isStr(o), ite(str_hassuffix(as(o, string), ";"), as(o, string), as(o, string) + ";"), tr_ex(o, 0) + ";") }
+//@ macro func thenOK(o Ref) bool { return isStr(o) || (isObj(o) && ok_ex(o, 0)) }
+//@ extern pure func str_hassuffix(a string, b string) bool
+//@ extern pure func tr_then(ts []any) []string
+//@ extern pure func ok_then(ts []any) bool
+// the action lines of a rule: each indented by 8 blanks and terminated by a newline
+//@ extern pure func thenLines(a []string, n int) string
+//@ axiom od_thenlines0: forall a []string {thenLines(a, 0)} :: thenLines(a, 0) == ""
+//@ axiom od_thenlinesN: forall a []string, n int {thenLines(a, n)} :: n >= 1 ==> thenLines(a, n) == thenLines(a, n - 1) + "        " + a[n - 1] + "\n"
+//@ extern pure func tr_callop(o Ref) string
+//@ extern pure func ok_callop(o Ref) bool
+//@ extern pure func tr_when(w Ref) string
+//@ extern pure func ok_when(w Ref) bool
+//@ macro func isStr(o Ref) bool { return o != nil && typeof(o) == typeid(string) }
+//@ macro func isF64(o Ref) bool { return o != nil && typeof(o) == typeid(float64) }
+//@ macro func isBool(o Ref) bool { return o != nil && typeof(o) == typeid(bool) }
+//@ macro func isObj(o Ref) bool { return o != nil && typeof(o) == typeid("map[string]any") }
+//@ macro func isArr(o Ref) bool { return o != nil && typeof(o) == typeid("[]any") }
+
 //@ func parseOperand(o, noWrap, negation) (r, err)
-//@   serves C20
+//@   serves C18 C20
+//@   opt strite=1
 //@   nopanic
 //@   modifies $allocated
+//@   trusted_ensures r == tr_operand(o, noWrap, negation) && (err == nil) == ok_operand(o, noWrap, negation)
+//@   checks[C18] str: isStr(o) ==> err == nil && r == as(o, string)
+//@   checks[C18] num: isF64(o) ==> err == nil && r == fmt_v_F64(as(o, float64))
+//@   checks[C18] boolean: isBool(o) ==> err == nil && r == ite(as(o, bool), "true", "false")
+//@   checks[C18] nested: isObj(o) ==> (err == nil) == ok_ex(o, 0) && (err == nil ==> r == ite(nw_ex(o, 0) || noWrap, tr_ex(o, 0), ite(negation, "!(" + tr_ex(o, 0) + ")", "(" + tr_ex(o, 0) + ")")))
+//@   checks[C18] other: !isStr(o) && !isF64(o) && !isBool(o) && !isObj(o) ==> err != nil
+//@ func parseCallOperand(o) (r, err)
+//@   serves C18 C20
+//@   opt strite=1
+//@   nopanic
+//@   modifies $allocated
+//@   trusted_ensures r == tr_callop(o) && (err == nil) == ok_callop(o)
+//@   checks[C18] str: isStr(o) ==> (err == nil) == (len(as(o, string)) > 0) && (err == nil ==> r == as(o, string))
+//@   checks[C18] num: isF64(o) ==> err == nil && r == fmt_v_F64(as(o, float64))
+//@   checks[C18] boolean: isBool(o) ==> err == nil && r == ite(as(o, bool), "true", "false")
+//@   checks[C18] nested: isObj(o) ==> (err == nil) == ok_ex(o, 0) && (err == nil ==> r == tr_ex(o, 0))
+//@   checks[C18] other: !isStr(o) && !isF64(o) && !isBool(o) && !isObj(o) ==> err != nil
+//@ func parseWhen(w) (r, err)
+//@   serves C18 C20
+//@   opt strite=1
+//@   nopanic
+//@   modifies $allocated
+//@   trusted_ensures r == tr_when(w) && (err == nil) == ok_when(w)
+//@   checks[C18] str: isStr(w) ==> err == nil && r == as(w, string)
+//@   checks[C18] nested: isObj(w) ==> (err == nil) == ok_ex(w, 0) && (err == nil ==> r == tr_ex(w, 0))
+//@   checks[C18] other: !isStr(w) && !isObj(w) ==> err != nil
+//@ func buildExpression(input, depth) (r, err)
+//@   serves C18 C20
+//@   nopanic
+//@   modifies $allocated
+//@   ensures r == tr_ex(input, depth) && (err == nil) == ok_ex(input, depth)
+//@ func parseThen(ts) (r, err)
+//@   serves C18 C20
+//@   opt strite=1
+//@   nopanic
+//@   modifies $allocated
+//@   trusted_ensures r == tr_then(ts) && (err == nil) == ok_then(ts)
+//@   invariant@1[C18] acc: len(thens) == len(ts) && (forall j int :: 0 <= j && j < thenItem ==> thenOK(ts[j]) && thens[j] == thenItem(ts[j]))
+//@   checks[C18] itemfails: (exists j int :: 0 <= j && j < len(ts) && !thenOK(ts[j])) ==> err != nil
+//@   checks[C18] format: err == nil ==> len(r) == len(ts) && (forall j int :: 0 <= j && j < len(ts) ==> r[j] == thenItem(ts[j]))
+// the documented operator table (docs/en/GRL_JSON_en.md): 13 binary operators and their GRL spelling
+//@ macro func binSpell(k string) string { return ite(k == "eq", " == ", ite(k == "not", " != ", ite(k == "gt", " > ", ite(k == "gte", " >= ", ite(k == "lt", " < ", ite(k == "lte", " <= ", ite(k == "bor", " | ", ite(k == "band", " & ", ite(k == "plus", " + ", ite(k == "minus", " - ", ite(k == "div", " / ", ite(k == "mul", " * ", ite(k == "mod", " % ", ""))))))))))))) }
+//@ macro func isBin(k string) bool { return k == "eq" || k == "not" || k == "gt" || k == "gte" || k == "lt" || k == "lte" || k == "bor" || k == "band" || k == "plus" || k == "minus" || k == "div" || k == "mul" || k == "mod" }
+//@ func buildExpressionEx(input, depth) (r, nowrap, err)
+//@   serves C18 C20
+//@   opt strite=1
+//@   nopanic
+//@   modifies $allocated
+//@   trusted_ensures r == tr_ex(input, depth) && nowrap == nw_ex(input, depth) && (err == nil) == ok_ex(input, depth)
+// (every path through the loop body returns: no iteration ever completes)
+//@   invariant@1 first: $i == 0
+//@   checks[C18] depthlimit: depth > 1024 ==> err != nil
+//@   checks[C18] single: len(input) != 1 ==> err != nil
+//@   checks[C18] logic: depth <= 1024 && len(input) == 1 ==> (forall k string :: has(input, k) && (k == "and" || k == "or") ==> r == tr_compound(input[k], depth, ite(k == "and", " && ", " || ")) && (err == nil) == ok_compound(input[k], depth, ite(k == "and", " && ", " || ")))
+//@   checks[C18] binary: depth <= 1024 && len(input) == 1 ==> (forall k string :: has(input, k) && isBin(k) ==> r == tr_join(input[k], binSpell(k)) && !nowrap && (err == nil) == ok_join(input[k], binSpell(k)))
+//@   checks[C18] setcall: depth <= 1024 && len(input) == 1 ==> (forall k string :: has(input, k) ==> (k == "set" ==> r == tr_set(input[k], " = ") && nowrap && (err == nil) == ok_set(input[k], " = ")) && (k == "call" ==> r == tr_call(input[k]) && nowrap && (err == nil) == ok_call(input[k])))
+//@   checks[C18] obj: depth <= 1024 && len(input) == 1 ==> (forall k string :: has(input, k) && k == "obj" ==> (err == nil) == isStr(input[k]) && (err == nil ==> nowrap && r == as(input[k], string)))
+//@   checks[C18] constant: depth <= 1024 && len(input) == 1 ==> (forall k string :: has(input, k) && k == "const" ==> (err == nil) == (isStr(input[k]) || isF64(input[k]) || isBool(input[k]))
+//@        && (isStr(input[k]) ==> nowrap && r == fmt_q_GoStr(as(input[k], string))) && (isF64(input[k]) ==> nowrap && r == fmt_fs_F64(as(input[k], float64))) && (isBool(input[k]) ==> nowrap && r == ite(as(input[k], bool), "true", "false")))
+//@   checks[C18] unknown: depth <= 1024 && len(input) == 1 ==> (forall k string :: has(input, k) && !(k == "and" || k == "or" || isBin(k) || k == "set" || k == "call" || k == "obj" || k == "const") ==> err != nil)
+//@ func buildCompoundOperator(o, depth, operator) (r, nowrap, err)
+//@   serves C18 C20
+//@   opt strite=1
+//@   opt axioms=od_subsof_len,od_subsof_el,od_join_ext
+//@   nopanic
+//@   modifies $allocated
+//@   trusted_ensures r == tr_compound(o, depth, operator) && (err == nil) == ok_compound(o, depth, operator)
+//@   invariant@1[C18] acc: len(ands) == i && i <= len(andarr) && (forall j int :: 0 <= j && j < i ==> isObj(andarr[j]) && ands[j] == tr_ex(andarr[j], depth + 1) && ok_ex(andarr[j], depth + 1))
+//@   checks[C18] arity: !isArr(o) || len(as(o, "[]any")) < 2 ==> err != nil
+//@   checks[C18] operandfails: isArr(o) && (exists j int :: 0 <= j && j < len(as(o, "[]any")) && (!isObj(as(o, "[]any")[j]) || !ok_ex(as(o, "[]any")[j], depth + 1))) ==> err != nil
+//@   checks[C18] format: isArr(o) && err == nil ==> !nowrap && r == ite(depth > 0, "(" + str_join(subsOf(as(o, "[]any"), depth), operator) + ")", str_join(subsOf(as(o, "[]any"), depth), operator))
+//@ func joinCall(v) (r, err)
+//@   serves C18 C20
+//@   opt strite=1
+//@   opt axioms=od_argsof_len,od_argsof_el,od_join_ext
+//@   nopanic
+//@   modifies $allocated
+//@   trusted_ensures r == tr_call(v) && (err == nil) == ok_call(v)
+//@   invariant@1[C18] acc: len(sars) == len(arr) - 1 && 1 <= i && (forall j int :: 1 <= j && j < i ==> sars[j - 1] == tr_callop(arr[j]) && ok_callop(arr[j]))
+//@   checks[C18] arity: !isArr(v) || len(as(v, "[]any")) == 0 || !isStr(as(v, "[]any")[0]) ==> err != nil
+//@   checks[C18] argfails: isArr(v) && (exists j int :: 1 <= j && j < len(as(v, "[]any")) && !ok_callop(as(v, "[]any")[j])) ==> err != nil
+//@   checks[C18] format: isArr(v) && err == nil ==> r == ite(len(as(v, "[]any")) > 1, as(as(v, "[]any")[0], string) + "(" + str_join(argsOf(as(v, "[]any")), ", ") + ")", as(as(v, "[]any")[0], string) + "()")
+// the operands of an n-ary operator, each translated by parseOperand (negation marks the operands of `not`)
+//@ extern pure func opsOf(a []any, neg bool) []string
+//@ axiom od_opsof_len: forall a []any, n bool {opsOf(a, n)} :: len(opsOf(a, n)) == len(a)
+//@ axiom od_opsof_el: forall a []any, n bool, j int {opsOf(a, n)[j]} :: 0 <= j && j < len(a) ==> opsOf(a, n)[j] == tr_operand(a[j], false, n)
+//@ extern pure func tr_join(v Ref, operator string) string
+//@ extern pure func ok_join(v Ref, operator string) bool
+//@ func joinOperator(v, operator) (r, err)
+//@   serves C18 C20
+//@   opt axioms=od_opsof_len,od_opsof_el,od_join_ext
+//@   nopanic
+//@   modifies $allocated
+//@   trusted_ensures r == tr_join(v, operator) && (err == nil) == ok_join(v, operator)
+//@   invariant@1[C18] acc: len(ops) == len(arr) && (forall j int :: 0 <= j && j < i ==> ops[j] == tr_operand(arr[j], false, operator == " != ") && ok_operand(arr[j], false, operator == " != "))
+//@   checks[C18] arity: !isArr(v) || len(as(v, "[]any")) == 0 ==> err != nil
+//@   checks[C18] operandfails: isArr(v) && (exists j int :: 0 <= j && j < len(as(v, "[]any")) && !ok_operand(as(v, "[]any")[j], false, operator == " != ")) ==> err != nil
+//@   checks[C18] format: isArr(v) && err == nil ==> r == str_join(opsOf(as(v, "[]any"), operator == " != "), operator)
+//@ func joinSet(v, operator) (r, err)
+//@   serves C18 C20
+//@   opt strite=1
+//@   nopanic
+//@   modifies $allocated
+//@   trusted_ensures r == tr_set(v, operator) && (err == nil) == ok_set(v, operator)
+//@   checks[C18] arity: !isArr(v) || len(as(v, "[]any")) != 2 ==> err != nil
+//@   checks[C18] format: isArr(v) && len(as(v, "[]any")) == 2 ==> (err == nil) == (ok_operand(as(v, "[]any")[0], true, false) && ok_operand(as(v, "[]any")[1], true, false))
+//@        && (err == nil ==> r == tr_operand(as(v, "[]any")[0], true, false) + operator + tr_operand(as(v, "[]any")[1], true, false))
